@@ -34,7 +34,7 @@ class Mark(AbsVal):
         if name == "start" and not args:
             return Off(("start", self.name), 0)
         if name == "end" and not args:
-            if len(self.text) == 1:
+            if len(self.text) == 1 and not self.is_block_start:
                 return Off(("start", self.name), 1)
             return Off(("end", self.name), 0)
         if name == "span":
